@@ -359,13 +359,13 @@ def _parse_tuple(self, a, st, k):
     fmt = a[1].s if isinstance(a[1], StrLit) else None
     if fmt is None:
         raise Unsupported("PyArg_ParseTuple with a non-literal format")
-    codes = [c for c in fmt if c in "OiInlk"]
+    codes = [c for c in fmt if c in "OiInlkUp"]
     optional_from = None
     seen = 0
     for ch in fmt:
         if ch == "|":
             optional_from = seen
-        elif ch in "OiInlk":
+        elif ch in "OiInlkUp":
             seen += 1
     targets = a[2:]
     if len(targets) != len(codes):
@@ -375,9 +375,11 @@ def _parse_tuple(self, a, st, k):
         for code, t in list(zip(codes, targets))[:upto]:
             if optional_absent:
                 continue
-            if code == "O":
+            if code in "OU":
                 v = self.cx.fresh("parsed", Obj)
                 st2 = st2.assume(v != NULL)
+                if code == "U":
+                    st2 = st2.assume(is_inst(v, "PyUnicode_Type"))
             elif code == "I":
                 v = self.cx.fresh("parsedu", BV32)
             else:
@@ -518,3 +520,50 @@ Api.f_PyDict_SetItem = _dict_setitem
 Api.f_PyDict_DelItem = _dict_delitem
 Api.f_PyDict_New = _dict_new
 Api.f_PyList_GET_SIZE = _list_get_size
+
+
+str_val = z3.Function("str_val", Obj, z3.StringSort())
+
+
+def _unicode_concat(self, a, st, k):
+    """PyUnicode_Concat(left, right): a new str, or NULL with TypeError when an operand is not a str (A-ALLOC)"""
+    l, r = a
+    st = self.nonnull(st, l, "PyUnicode_Concat")
+    st = self.nonnull(st, r, "PyUnicode_Concat(right)")
+    both = z3.And(is_inst(l, "PyUnicode_Type"), is_inst(r, "PyUnicode_Type"))
+
+    def ok(s):
+        res, s2 = self.fresh_obj("newstr", s)
+        return k(res, s2.assume(is_exact(res, "PyUnicode_Type"), is_inst(res, "PyUnicode_Type"),
+                                str_val(res) == z3.Concat(str_val(l), str_val(r))))
+    return self.cx.branch(st, both, ok, lambda s: k(NULL, s.with_exc(EXC["TypeError"])))
+
+
+def _getattr(self, a, st, k):
+    st = self.nonnull(st, a[0], "PyObject_GetAttr")
+    st = st.log(("getattr-api", a[0], a[1]))
+    s1 = self.havoc(st, "PyObject_GetAttr")
+    res = z3.Function("getattr_result", Obj, Obj, Obj)(a[0], a[1])
+    out = self.cx.branch(s1, res != NULL, lambda s: k(res, self.own_inc(s, res)), lambda s: [])
+    e = self.cx.fresh("exc", INT)
+    out += self.cx.branch(s1, res == NULL, lambda s: k(NULL, s.assume(e >= 1).with_exc(e)), lambda s: [])
+    return out
+
+
+Api.f_PyUnicode_Concat = _unicode_concat
+Api.f_PyObject_GetAttr = _getattr
+
+
+def _generic_getattr(self, a, st, k):
+    """PyObject_GenericGetAttr: the plain Python attribute lookup (descriptors may run Python code)"""
+    st = self.nonnull(st, a[0], "PyObject_GenericGetAttr")
+    st = st.log(("generic-getattr", a[0], a[1]))
+    s1 = self.havoc(st, "PyObject_GenericGetAttr")
+    res = z3.Function("generic_getattr_result", Obj, Obj, Obj)(a[0], a[1])
+    out = self.cx.branch(s1, res != NULL, lambda s: k(res, self.own_inc(s, res)), lambda s: [])
+    e = self.cx.fresh("exc", INT)
+    out += self.cx.branch(s1, res == NULL, lambda s: k(NULL, s.assume(e >= 1).with_exc(e)), lambda s: [])
+    return out
+
+
+Api.f_PyObject_GenericGetAttr = _generic_getattr
